@@ -18,6 +18,7 @@ NUM_SPELLINGS = [
     ("1234567", 1234567), ("3.141593", 3.141593), ("16777216", 16777216), ("1E-3", 0.001), ("2.5E-2", 0.025), ("123456.75", 123456.75),
     # magnitudes that Python prints in exponent notation (below 1E-4, from 1E16)
     ("1.25E-5", 1.25e-05), ("1E-7", 1e-07), ("1E16", 1e16), ("2.5E+20", 2.5e20), (".00001234", 1.234e-05),
+    ("1E-10", 1e-10), ("2.5E-10", 2.5e-10), ("6.02E-23", 6.02e-23), ("1.23456789E-5", 1.23456789e-05), ("1.5E-9", 1.5e-09), (".000000000125", 1.25e-10),
 ]
 INT_SPELLINGS = [s for s in NUM_SPELLINGS if float(s[1]) == int(s[1]) and "E" not in s[0] and "." not in s[0]]
 # Color BASIC accepts the two-character relational operators in either order
@@ -311,6 +312,10 @@ class Gen:
             if n <= self.max_str:
                 self.labels.hit("long_string_literal")
                 return ["str", ("LONG TEXT 0123456789 " * 13)[:n]]
+        if self.chance(1, 20):
+            # characters that some line-splitting routines take for line ends although only CR and LF are (form feed, VT, NEL, U+2028 ...)
+            self.labels.hit("string_literal_with_pseudo_line_end")
+            return ["str", self.choice(["A\x0cB", "X\x0bY", "P\x85Q", "L\u2028M", "\x1cRUN ecb_play", "T\x1e", "\u2029"])]
         return ["str", self.choice(["", "A", "B", "AB", "BA", "A B", " ", "HELLO", "ABAB", "x", "BASIC09", "A,B", "IT'S"])]
 
     def string(self, depth, plain=False):
